@@ -12,7 +12,9 @@
    [ty_ok expr_ok stmt_ok clause_ok spec_ok decl_ok] ("lex_ok"): the leaves are lexically well
    formed - every name (identifier, selector, label, parameter, type name) is a Go identifier
    over ASCII: letter (letter | digit)*, not one of the 25 keywords.  Integers and strings are
-   unconstrained. *)
+   unconstrained.  One more condition, which is about the scanner MODEL and not about Go: the
+   tag of a struct field must be one that jennifer writes as an interpreted string ([tag_ok]:
+   strconv.CanBackquote refuses its text), because GoStd/Tokens.v has no raw string literals. *)
 From Jen Require Import Base.Bytes Base.Num GoStd.Quote GoStd.Tokens Model.Render Spec.MiniGo.
 
 Definition tid (n : str) : tok := (KIdent, n).
@@ -46,16 +48,55 @@ Definition tbraces (l : list (list tok)) : list tok := top (S "{") :: concat l +
 (* "(" items ")" with nothing between the items (the specs of a declaration group) *)
 Definition tparens (l : list (list tok)) : list tok := top (S "(") :: concat l ++ [top (S ")")].
 
+(* The keyed elements of a composite literal, given IN THE ORDER IN WHICH THEY ARE WRITTEN as
+   (key tokens, value tokens): nothing; `k : v`; and for several elements `k : v ,` for each -
+   the last element is followed by a comma as well (Go: ElementList [ "," ]). *)
+Definition tkeyed (l : list (list tok * list tok)) : list tok :=
+  match l with
+  | [] => []
+  | [kv] => fst kv ++ top (S ":") :: snd kv
+  | _ => concat (map (fun kv => fst kv ++ top (S ":") :: snd kv ++ [top (S ",")]) l)
+  end.
+
+(* ---- signatures, over the token sequence of types *)
+Section TSig.
+  Variable rec : ty -> list tok.
+  Definition tparam_with (p : param) : list tok := tid (fst p) :: rec (snd p).
+  (* a field: the tag is ONE string token whose spelling is the text jennifer writes *)
+  Definition tfield_with (f : field) : list tok :=
+    tid (fd_name f) :: rec (fd_ty f) ++ match fd_tag f with [] => [] | kvs => [(KString, tag_text kvs)] end.
+  Definition tparams_with (ps : list param) : list tok := top (S "(") :: tcommas (map tparam_with ps) ++ [top (S ")")].
+  (* Result = Type | "(" Type { "," Type } ")" *)
+  Definition tresults_with (res : list ty) : list tok :=
+    match res with
+    | [] => []
+    | [t] => rec t
+    | _ => top (S "(") :: tcommas (map rec res) ++ [top (S ")")]
+    end.
+  Definition tsig_with (sg : sig) : list tok := tparams_with (fst sg) ++ tresults_with (snd sg).
+End TSig.
+
 Fixpoint tty (t : ty) : list tok :=
   match t with
   | TName n => [tid n]
   | TPtr t => top (S "*") :: tty t
   | TSlice t => top (S "[") :: top (S "]") :: tty t
   | TMap k v => tkw (S "map") :: top (S "[") :: tty k ++ top (S "]") :: tty v
+  | TArray n t => top (S "[") :: tintlit n ++ top (S "]") :: tty t
+  | TChan CBoth t => tkw (S "chan") :: tty t
+  | TChan CRecv t => top (S "<-") :: tkw (S "chan") :: tty t
+  | TChan CSend t => tkw (S "chan") :: top (S "<-") :: tty t
+  | TEllipsis t => top (S "...") :: tty t
+  | TFunc ps res => tkw (S "func") :: tsig_with tty (ps, res)
+  | TStruct fs => tkw (S "struct") :: tbraces (map (tfield_with tty) fs)
+  | TIface ms => tkw (S "interface") :: tbraces (map (fun m => tid (fst m) :: tsig_with tty (snd m)) ms)
   end.
 
-Definition tparam (p : param) : list tok := tid (fst p) :: tty (snd p).
-Definition tparams (ps : list param) : list tok := top (S "(") :: tcommas (map tparam ps) ++ [top (S ")")].
+Definition tparam : param -> list tok := tparam_with tty.
+Definition tfield : field -> list tok := tfield_with tty.
+Definition tparams : list param -> list tok := tparams_with tty.
+Definition tresults : list ty -> list tok := tresults_with tty.
+Definition tsig : sig -> list tok := tsig_with tty.
 
 Fixpoint texpr (e : expr) : list tok :=
   match e with
@@ -75,7 +116,14 @@ Fixpoint texpr (e : expr) : list tok :=
   | ESel x sel => texpr x ++ [top (S "."); tid sel]
   | EParen x => top (S "(") :: texpr x ++ [top (S ")")]
   | EComp t elts => tty t ++ top (S "{") :: tcommas (map texpr elts) ++ [top (S "}")]
-  | EFunc ps res body => tkw (S "func") :: tparams ps ++ topt tty res ++ tbraces (map tstmt body)
+  | EKeyed t pairs =>
+      (* the elements in the order of the TEXTS of their keys: the one place where the token
+         sequence refers to the printer ([cexpr] of the keys; Spec/MiniGo.v: sort_keyed) *)
+      tty t ++ top (S "{") ::
+      tkeyed (map snd (sort_keyed (map (fun kv => (cexpr (fst kv), (texpr (fst kv), texpr (snd kv)))) pairs))) ++
+      [top (S "}")]
+  | EFunc ps res body => tkw (S "func") :: tparams ps ++ tresults res ++ tbraces (map tstmt body)
+  | EAssert x t => texpr x ++ top (S ".") :: top (S "(") :: tty t ++ [top (S ")")]
   end
 with tstmt (s : stmt) : list tok :=
   match s with
@@ -103,11 +151,21 @@ with tstmt (s : stmt) : list tok :=
   | SGo f args ddd => tkw (S "go") :: texpr f ++ top (S "(") :: targs ddd (map texpr args) ++ [top (S ")")]
   | SDefer f args ddd => tkw (S "defer") :: texpr f ++ top (S "(") :: targs ddd (map texpr args) ++ [top (S ")")]
   | SVar x t e => tkw (S "var") :: tid x :: topt tty t ++ topt (fun e => top (S "=") :: texpr e) e
+  | SLabeled l s => tid l :: top (S ":") :: tstmt s
+  | SGoto l => [tkw (S "goto"); tid l]
+  | SFallthrough => [tkw (S "fallthrough")]
+  | SSend c v => texpr c ++ top (S "<-") :: texpr v
+  | SSelect cls => tkw (S "select") :: tbraces (map tclause cls)
+  | STypeSwitch init bind x cls =>
+      tkw (S "switch") :: topt (fun s => tstmt s ++ [top (S ";")]) init ++ topt (fun b => [tid b; top (S ":=")]) bind ++
+      texpr x ++ top (S ".") :: top (S "(") :: tkw (S "type") :: top (S ")") :: tbraces (map tclause cls)
   end
 with tclause (c : clause) : list tok :=
   match c with
   | CCase e es body => tkw (S "case") :: tcommas (map texpr (e :: es)) ++ top (S ":") :: concat (map tstmt body)
   | CDefault body => tkw (S "default") :: top (S ":") :: concat (map tstmt body)
+  | CComm s body => tkw (S "case") :: tstmt s ++ top (S ":") :: concat (map tstmt body)
+  | CType t ts body => tkw (S "case") :: tcommas (map tty (t :: ts)) ++ top (S ":") :: concat (map tstmt body)
   end.
 
 Definition tspec (s : spec) : list tok :=
@@ -117,7 +175,9 @@ Definition tspec (s : spec) : list tok :=
 
 Definition tdecl (d : decl) : list tok :=
   match d with
-  | DFunc name ps res body => tkw (S "func") :: tid name :: tparams ps ++ topt tty res ++ tbraces (map tstmt body)
+  | DFunc name ps res body => tkw (S "func") :: tid name :: tparams ps ++ tresults res ++ tbraces (map tstmt body)
+  | DMethod recv name ps res body =>
+      tkw (S "func") :: tparams [recv] ++ tid name :: tparams ps ++ tresults res ++ tbraces (map tstmt body)
   | DVars specs => tkw (S "var") :: tparens (map tspec specs)
   | DConsts specs => tkw (S "const") :: tparens (map tspec specs)
   | DType name t => tkw (S "type") :: tid name :: tty t
@@ -138,15 +198,34 @@ Definition ident_ok (n : str) : bool :=
 Definition opt_ok {A} (f : A -> bool) (o : option A) : bool :=
   match o with Some a => f a | None => true end.
 
+Section OkSig.
+  Variable rec : ty -> bool.
+  Definition param_ok_with (p : param) : bool := ident_ok (fst p) && rec (snd p).
+  (* a tag is lexically in the scanner model when jennifer writes it as an INTERPRETED string:
+     the model GoStd/Tokens.v has no raw (backquoted) string literals - see Props/C01_tokens.v *)
+  Definition tag_ok (kvs : list (str * str)) : bool :=
+    match kvs with [] => true | _ => negb (CanBackquote (tag_body kvs)) end.
+  Definition field_ok_with (f : field) : bool := ident_ok (fd_name f) && rec (fd_ty f) && tag_ok (fd_tag f).
+  Definition sig_ok_with (sg : sig) : bool := forallb param_ok_with (fst sg) && forallb rec (snd sg).
+End OkSig.
+
 Fixpoint ty_ok (t : ty) : bool :=
   match t with
   | TName n => ident_ok n
   | TPtr t => ty_ok t
   | TSlice t => ty_ok t
   | TMap k v => ty_ok k && ty_ok v
+  | TArray _ t => ty_ok t
+  | TChan _ t => ty_ok t
+  | TEllipsis t => ty_ok t
+  | TFunc ps res => sig_ok_with ty_ok (ps, res)
+  | TStruct fs => forallb (field_ok_with ty_ok) fs
+  | TIface ms => forallb (fun m => ident_ok (fst m) && sig_ok_with ty_ok (snd m)) ms
   end.
 
-Definition param_ok (p : param) : bool := ident_ok (fst p) && ty_ok (snd p).
+Definition param_ok : param -> bool := param_ok_with ty_ok.
+Definition field_ok : field -> bool := field_ok_with ty_ok.
+Definition sig_ok : sig -> bool := sig_ok_with ty_ok.
 
 Fixpoint expr_ok (e : expr) : bool :=
   match e with
@@ -161,7 +240,9 @@ Fixpoint expr_ok (e : expr) : bool :=
   | ESel x sel => expr_ok x && ident_ok sel
   | EParen x => expr_ok x
   | EComp t elts => ty_ok t && forallb expr_ok elts
-  | EFunc ps res body => forallb param_ok ps && opt_ok ty_ok res && forallb stmt_ok body
+  | EKeyed t pairs => ty_ok t && forallb (fun kv => expr_ok (fst kv) && expr_ok (snd kv)) pairs
+  | EFunc ps res body => forallb param_ok ps && forallb ty_ok res && forallb stmt_ok body
+  | EAssert x t => expr_ok x && ty_ok t
   end
 with stmt_ok (s : stmt) : bool :=
   match s with
@@ -181,11 +262,19 @@ with stmt_ok (s : stmt) : bool :=
   | SGo f args _ => expr_ok f && forallb expr_ok args
   | SDefer f args _ => expr_ok f && forallb expr_ok args
   | SVar x t e => ident_ok x && opt_ok ty_ok t && opt_ok expr_ok e
+  | SLabeled l s => ident_ok l && stmt_ok s
+  | SGoto l => ident_ok l
+  | SFallthrough => true
+  | SSend c v => expr_ok c && expr_ok v
+  | SSelect cls => forallb clause_ok cls
+  | STypeSwitch init bind x cls => opt_ok stmt_ok init && opt_ok ident_ok bind && expr_ok x && forallb clause_ok cls
   end
 with clause_ok (c : clause) : bool :=
   match c with
   | CCase e es body => expr_ok e && forallb expr_ok es && forallb stmt_ok body
   | CDefault body => forallb stmt_ok body
+  | CComm s body => stmt_ok s && forallb stmt_ok body
+  | CType t ts body => ty_ok t && forallb ty_ok ts && forallb stmt_ok body
   end.
 
 Definition spec_ok (s : spec) : bool :=
@@ -193,7 +282,9 @@ Definition spec_ok (s : spec) : bool :=
 
 Definition decl_ok (d : decl) : bool :=
   match d with
-  | DFunc name ps res body => ident_ok name && forallb param_ok ps && opt_ok ty_ok res && forallb stmt_ok body
+  | DFunc name ps res body => ident_ok name && forallb param_ok ps && forallb ty_ok res && forallb stmt_ok body
+  | DMethod recv name ps res body =>
+      param_ok recv && ident_ok name && forallb param_ok ps && forallb ty_ok res && forallb stmt_ok body
   | DVars specs => forallb spec_ok specs
   | DConsts specs => forallb spec_ok specs
   | DType name t => ident_ok name && ty_ok t
